@@ -112,7 +112,9 @@ func workerC18(args []string) int {
 		return 3
 	}
 	enc := json.NewEncoder(os.Stdout)
-	for _, job := range jobs {
+	var encMu sync.Mutex
+	together := len(args) > 1 && args[1] == "together"
+	one := func(job c18Job) int {
 		fmt.Fprintf(os.Stderr, "c18: starting %s\n", job.ID)
 		res := c18Result{ID: job.ID}
 		type rowWriter interface {
@@ -143,7 +145,7 @@ func workerC18(args []string) int {
 			w = bw
 			cleanup = func() { db.Close(); tdb.Close(); os.Remove(job.Out + ".tmp") }
 		}
-		if job.Yield {
+		if job.Yield && !together {
 			var n int64
 			updog.VerifSetHook(func(site string) {
 				// inside the writer's critical section: yield so that the other goroutines queue up at the lock
@@ -212,7 +214,9 @@ func workerC18(args []string) int {
 		ready.Wait()
 		close(gate)
 		wg.Wait()
-		updog.VerifSetHook(nil)
+		if !together {
+			updog.VerifSetHook(nil)
+		}
 		for g := range per {
 			res.Ops = append(res.Ops, per[g]...)
 			res.Panics = append(res.Panics, panics[g]...)
@@ -225,8 +229,32 @@ func workerC18(args []string) int {
 			res.FlushErr = "panic: " + msg
 		}
 		cleanup()
+		encMu.Lock()
+		defer encMu.Unlock()
 		if err := enc.Encode(res); err != nil {
 			return 3
+		}
+		return 0
+	}
+	if together {
+		// all jobs of the chunk at the same time: several writer objects are inside AddRow at once in one process
+		codes := make([]int, len(jobs))
+		var wg sync.WaitGroup
+		for i := range jobs {
+			wg.Add(1)
+			go func(i int) { defer wg.Done(); codes[i] = one(jobs[i]) }(i)
+		}
+		wg.Wait()
+		for _, c := range codes {
+			if c != 0 {
+				return c
+			}
+		}
+		return 0
+	}
+	for _, job := range jobs {
+		if c := one(job); c != 0 {
+			return c
 		}
 	}
 	return 0
@@ -312,6 +340,15 @@ func runC18(r *vf.Run) {
 		jobs = append(jobs, c18Job{ID: id, Writer: w, Goroutines: 8, Total: 120, Yield: ti%3 == 0, Ticket: ti%2 == 0, TagLen: tl, Out: filepath.Join(dir, id+".updog")})
 		k++
 	}
+	// (round 8) a chunk whose jobs run AT THE SAME TIME in one process: three in-memory and three big writers, each fed
+	// by four goroutines with rows whose values are new to the writer most of the time
+	var togetherJobs []c18Job
+	for i := 0; i < 6; i++ {
+		w := []string{"mem", "big"}[i%2]
+		id := fmt.Sprintf("job%03d-%s-together-n%d-g4", k, w, 1500+100*i)
+		togetherJobs = append(togetherJobs, c18Job{ID: id, Writer: w, Goroutines: 4, Total: 1500 + 100*i, Ticket: true, Out: filepath.Join(dir, id+".updog")})
+		k++
+	}
 	// children: chunks of jobs
 	const per = 8
 	var ids []string
@@ -321,6 +358,8 @@ func runC18(r *vf.Run) {
 		ids = append(ids, id)
 		chunks[id] = jobs[i:min(i+per, len(jobs))]
 	}
+	ids = append(ids, "chunk-together")
+	chunks["chunk-together"] = togetherJobs
 	r.ForEach(ids, 8, func(cid string) {
 		var todo []c18Job
 		for _, j := range chunks[cid] {
@@ -335,7 +374,11 @@ func runC18(r *vf.Run) {
 		specPath := filepath.Join(dir, cid+".json")
 		_ = os.WriteFile(specPath, b, 0o644)
 		logp := filepath.Join(dir, cid+"-race.log")
-		res := runChild(r, binPath("vcheck.race"), []string{"worker", "c18-addrow", specPath}, childOpts{Timeout: 10 * time.Minute, RaceLog: logp})
+		wargs := []string{"worker", "c18-addrow", specPath}
+		if cid == "chunk-together" {
+			wargs = append(wargs, "together")
+		}
+		res := runChild(r, binPath("vcheck.race"), wargs, childOpts{Timeout: 10 * time.Minute, RaceLog: logp})
 		nraces := checkRaceLog(r, cid+"/all", logp) // replaying "<chunk>/all" runs every job of the chunk
 		if res.TimedOut {
 			hangVerdict(r, cid, res, nil)
